@@ -25,6 +25,13 @@ CAUGHT = {
     "C12-4": {"C12": "violation"}, "C13-4": {"C13": "violation"}, "C14-4": {"C14": "violation"}, "C15-4": {"C15": "violation"},
     "C16-4": {"C16": "violation"}, "C17-4": {"C17": "violation"}, "C18-4": {"C18": "violation"}, "C19-4": {"C19": "violation"},
     "C20-4": {"C20": "violation"},
+    "C01-5": {"C02": "violation", "C01": "not reported (key rotation inside a world history is not modelled; the key-generation priming of C02 sees it)"},
+    "C02-5": {"C02": "violation"}, "C03-5": {"C03": "violation"}, "C04-5": {"C04": "violation"}, "C05-5": {"C05": "violation"},
+    "C06-5": {"C06": "violation"}, "C07-5": {"C07": "violation"}, "C08-5": {"C08": "violation", "C14": "violation"},
+    "C09-5": {"C09": "violation", "C04": "violation"}, "C10-5": {"C10": "violation"}, "C11-5": {"C15": "violation", "C11": "not reported"},
+    "C12-5": {"C12": "violation", "C13": "violation"}, "C13-5": {"C13": "violation"}, "C14-5": {"C14": "violation"},
+    "C15-5": {"C15": "violation"}, "C16-5": {"C16": "violation"}, "C17-5": {"C17": "violation"}, "C18-5": {"C18": "violation"},
+    "C19-5": {"C19": "violation"}, "C20-5": {"C20": "violation"},
 }
 for d in sorted(os.listdir(root)):
     p = os.path.join(root, d)
